@@ -104,8 +104,9 @@ Print Assumptions C11_probe_truthful_in_every_factory.
    proved of the kernel model L0 itself (theories/Kernel/KernelTimer.v): an event created by timeout(d) is processed at exactly
    creation time + d along EVERY sequence of kernel operations (event creation, timeouts, succeed, callbacks, any_of conditions,
    Resource requests / releases, pops) -- nothing can schedule it a second time --, and while its queue entry is there the clock
-   has not passed that time.  (The factory model makes one more kind of kernel transition, a finishing process scheduling its own
-   completion event; that one is not covered here.) *)
+   has not passed that time.  (The factory model makes one more kind of kernel transition: a finishing process schedules its own
+   completion event without asking whether it is untriggered; when it is -- SimPy raises otherwise --, that transition is the
+   [succeed] covered here.) *)
 From FV Require Kernel KernelTimer.
 Theorem C11_timer_processed_exactly_when_due :
   forall k d k1 e, KernelTimer.QRefs k -> Kernel.timeout k d = (k1, e) ->
